@@ -158,7 +158,6 @@ func init() {
 			res.Merge(rn)
 			res.Merge(flagx.RunLenValue(def, core.Pkgs("./blas/gonum")))
 			ro := flagx.RunRetOffset(def, core.Pkgs("./blas/gonum"))
-			ro.Floor("functions_returning_a_parameter_plus_a_value", 1)
 			res.Merge(ro)
 			cs := loopidx.RunContinueSkip(def, core.Pkgs(blasPkgs...))
 			cs.Floor("loops_with_trailing_induction_updates", 150)
@@ -564,7 +563,6 @@ func init() {
 			res.Merge(overlap.RunSymmetric(def))
 			ex := overlap.RunExtent(def)
 			ex.Floor("offset_comparisons", 5)
-			ex.Floor("offset_lattice_tests", 1)
 			res.Merge(ex)
 			ue := zeroed.RunUseEmpty(def)
 			ue.Floor("reuses_of_the_receivers_backing_slice", 7)
@@ -691,7 +689,7 @@ func init() {
 				mi.Floor("inner_map_installations", 16)
 				res.Merge(mi)
 				ne := graphinv.RunNilEntry(c, "./graph/simple", "./graph/multi")
-				ne.Floor("method_calls_on_map_entries", 8)
+				ne.Floor("method_calls_on_map_entries", 4)
 				res.Merge(ne)
 				dg := graphinv.RunDiag(c)
 				dg.Floor("matrix_stores_at_a_pair_of_node_ids", 2)
